@@ -27,6 +27,12 @@ STORES = {
 }
 
 PROPS = {
+    "C12": {
+        "tiers": tiers(2000, 60000, quick_budget=40),
+        "rule": "rapid-generated history of 1-3 process incarnations plus a final fault-free one on the same MemoryStore or SQLite file: in each, a publisher task publishes 0-6 events of the four event-type shapes while a subscriber task calls SubscribeWithReplay for 1-2 subscription ids at drawn points (so publishes interleave with a running SubscribeWithReplay at scheduler-chosen points); an incarnation ends cleanly or crashes right after (or before) its m-th store operation - every Append, Read, streamed row, SaveOffset and LoadOffset counts - after which its tasks are dead: the decorator refuses their store calls and their deliveries are ignored; at most one store operation in the run fails (append/read/save/load, before its effect or with the acknowledgement lost); + choice tape. Oracle over the concatenated delivery history and the durable saves. Non-trivial: a crash or fault happened or more than one incarnation; distinct = (scenario shape, schedule trace hash, history hash).",
+        "components": dict(REAL_BUS, **STORES),
+        "assumptions": COMMON_ASSUME + ["one publisher task per incarnation (order of live deliveries under several concurrent publishers is outside the statement)", "a crash is modelled at store-operation granularity: nothing of a dead incarnation reaches the store or the delivery record afterwards", "durable-streams is not used here: it has no subscription store and its per-event offsets are synthetic (C10 known finding)"],
+    },
     "C11": {
         "tiers": tiers(2000, 60000, quick_budget=40),
         "rule": "rapid-generated case: store configuration (MemoryStore streaming / paged; SQLite streaming unbatched, stream batch 1/2/3/7, paged; durable-streams paged with chunk default/64/256), WithReplayBatchSize unset/1/2/3/5/100, log length 0-40 (two thirds 0-12), start offset anywhere in the log, and one fault drawn jointly with its position: none, callback error at call k, context cancelled before the call, context cancelled by the callback at call k, store Read/stream-open failure at page p, stream row failure at row r, SQL driver failures underneath the SQLite store (rows.Next fails at row r, query fails, Rows.Close fails - through the verif hook), lost request / lost response on the j-th GET (durable-streams). Non-trivial: non-empty log; distinct = (scenario, history hash).",
